@@ -326,7 +326,12 @@ def run(ck, facts, tier):
         shr = [c for c in touching if str(c.get("fn", "")).split("::")[-1] in SHRINK]
         inst = "%s:def_ids" % short(key)
         if key in WRITERS:
-            grow = [c for c in touching if str(c.get("fn", "")).split("::")[-1] in WRITERS[key]]
+            # the two writers are a few lines each: whatever they call (on the field or on the guard they bound to a local) is an
+            # insert / extend and nothing in them removes
+            every = [c for t in roots for c in calls(t)]
+            grow = [c for c in every if str(c.get("fn", "")).split("::")[-1] in ("insert", "extend", "insert_full")]
+            shr = shr + [c for c in every if str(c.get("fn", "")).split("::")[-1] in SHRINK and "Iterator" not in str(c.get("fn", ""))
+                         and "Option" not in str(c.get("fn", ""))]
             if grow and not shr:
                 ck.ok(R, inst, "mutable borrow used to %s only" % "/".join(WRITERS[key]))
             else:
